@@ -27,6 +27,7 @@ mod p_sketch;
 mod p_text;
 mod s_lock;
 mod x_capsule;
+mod x_fault;
 mod s_wal;
 mod x_crash;
 
@@ -85,6 +86,9 @@ fn main() {
         "C17" => s_lock::run(tier, replay),
         "C18" => h_readonly::run(tier, replay),
         "C19" => h_c01::run_c19(tier, replay),
+        "C20" => x_fault::run_c20(tier, replay),
+        "C21" => x_fault::run_c21(tier, replay),
+        "C22" => x_fault::run_c22(tier, replay),
         "C23" => h_determinism::run(tier, replay),
         "C24" => h_c01::run_c24(tier, replay),
         "C25" => h_ticket::run(tier, replay),
@@ -115,6 +119,7 @@ fn worker(kind: &str) {
         "c32" => p_query::worker(),
         "hist" => hist::worker(),
         "c17" => s_lock::worker(),
+        "fault" => x_fault::worker(),
         "crash" => x_crash::worker(),
         "c23" => h_determinism::worker(),
         "c40" => h_bulk::worker(),
